@@ -330,11 +330,15 @@ func VerifH14() {
 	}
 	rows, clean, bounds := vRefCopy(data, nc, width)
 
-	// split points inside the tuple area, non-decreasing: two equal cuts (or a
-	// cut at the very end) make an EMPTY CopyData message, which is a legal split
+	// split points anywhere in the stream — inside the header too —,
+	// non-decreasing: two equal cuts (or a cut at the very end) make an EMPTY
+	// CopyData message, which is a legal split
 	stream := vCat(vCopyHeader, data)
 	var cuts []int
 	last := len(vCopyHeader)
+	if vParam("HEADERSPLIT", 0) > 0 {
+		last = 1
+	}
 	emptyChunk := false
 	for s := 0; s < SPLITS; s++ {
 		if nondetBool() {
@@ -382,10 +386,12 @@ func VerifH14() {
 		got = append(got, row)
 	}
 	vAssert("reader-terminates", endErr != nil)
-	if midTuple && vKnownOpen("KF-C14-1") {
-		// open finding: a tuple that spans two CopyData messages is not reassembled
-		vAssertK("split-independent", "KF-C14-1", true, len(got) == len(rows) && (endErr == io.EOF) == clean)
+	if midTuple {
 		vReach("split-inside-tuple")
+	}
+	if midTuple && vKnownOpen("KF-C14-1") {
+		// (while the finding was open: a tuple that spans two CopyData messages was not reassembled)
+		vAssertK("split-independent", "KF-C14-1", true, len(got) == len(rows) && (endErr == io.EOF) == clean)
 		return
 	}
 	vAssert("row-count", len(got) == len(rows))
